@@ -142,6 +142,46 @@ let concat_case n fileshex sephex caps =
 (* ---- DataUri ---- *)
 let b2s b = if b then "1" else "0"
 
+
+(* ---- Http (responseWriter / Middleware) ---- *)
+let http_case tbl ext script =
+  let entries = if tbl = "" then [] else Stdlib.List.map (fun e ->
+      match split '=' e with
+      | [k; v] -> (k, v)
+      | _ -> failwith "http table") (split ',' tbl) in
+  let lookup mt = Stdlib.List.assoc_opt (hexe mt) entries in
+  let ops = if script = "" then [] else Stdlib.List.map (fun o ->
+      let rest = Stdlib.String.sub o 1 (sl o - 1) in
+      match o.[0] with
+      | 'T' -> StreamHttp.SetCT (hexd (if rest = "" then "-" else rest))
+      | 'L' -> StreamHttp.SetCL
+      | 'H' -> StreamHttp.WriteHeader
+      | 'W' -> StreamHttp.Write (hexd (if rest = "" then "-" else rest))
+      | _ -> failwith "hop") (split ',' script) in
+  let written = Stdlib.List.concat (Stdlib.List.map (function StreamHttp.Write b -> b | _ -> []) ops) in
+  let served mt = match lookup mt with Some v when v <> "N" -> Some Datatypes.O | _ -> None in
+  let payload mt = match lookup mt with
+    | Some v when v <> "N" -> (match split ':' v with [f; o] -> (f = "S1", hexd o) | [f] -> (f = "S1", []) | _ -> failwith "http entry")
+    | _ -> (false, []) in
+  let run _ mt inp = if inp = written then snd (payload mt) else bytes_of_string "PIPED-MISMATCH" in
+  let runerr _ mt _ = fst (payload mt) in
+  let e = hexd ext in
+  let s = StreamHttp.serve served e run ops in
+  let err = StreamHttp.close_err served e runerr ops in
+  let cl = match s.StreamHttp.sent with Some b -> b | None -> s.StreamHttp.cl in
+  Printf.sprintf "cl=%s err=%s body=%s" (b2s cl) (b2s err) (hexe s.StreamHttp.body)
+
+
+(* ---- Xml ---- *)
+let xtt_of_int = function 0 -> XmlModel.XError | 1 -> XmlModel.XComment | 2 -> XmlModel.XDoctype | 3 -> XmlModel.XCData | 4 -> XmlModel.XText
+  | 5 -> XmlModel.XStartTag | 6 -> XmlModel.XStartTagPI | 7 -> XmlModel.XAttribute | 8 -> XmlModel.XStartTagClose
+  | 9 -> XmlModel.XStartTagCloseVoid | 10 -> XmlModel.XStartTagClosePI | _ -> XmlModel.XEndTag
+let xml_case keep toks =
+  let ts = if toks = "" then [] else Stdlib.List.map (fun t -> match split ':' t with
+    | [a; d; x; v] -> { XmlModel.tt = xtt_of_int (int_of_string a); data = hexd d; text = hexd x; attrval = hexd v }
+    | _ -> failwith "xml token") (split ',' toks) in
+  hexe (XmlModel.xml_minify (keep = "1") ts)
+
 let register (reg : string -> (string list -> string) -> unit) =
   reg "json_events" (function [k; evs] -> hexe (JsonModel.json_minify_events (k = "1") (parse_events evs))
                             | [k] -> hexe (JsonModel.json_minify_events (k = "1") []) | _ -> "BADARGS");
@@ -154,5 +194,9 @@ let register (reg : string -> (string list -> string) -> unit) =
   reg "stream" (function [e; p; w; en; sc; wf] -> stream_case e p w en sc wf | _ -> "BADARGS");
   reg "cliops" (function [k; d; z] -> cliops k d z | [k; d] -> cliops k d "" | _ -> "BADARGS");
   reg "concat" (function [n; f; s; c] -> concat_case n f s c | _ -> "BADARGS");
+  reg "http" (function [t; e; sc] -> http_case t e sc | [t; e] -> http_case t e "" | _ -> "BADARGS");
+  reg "xml" (function [k; t] -> xml_case k t | [k] -> xml_case k "" | _ -> "BADARGS");
+  reg "xml_escattr" (function [v] -> hexe (XmlModel.escape_attr_val (hexd v)) | _ -> "BADARGS");
+  reg "xml_esccdata" (function [v] -> let (e, u) = XmlModel.escape_cdata_val (hexd v) in (if u then "true " else "false ") ^ hexe e | _ -> "BADARGS");
   reg "tokbuf" (function [t; o] -> tokbuf t o | _ -> "BADARGS");
   reg "json_tree" (function [t] -> show_events (JsonSpec.events_of JsonModel.SValue (parse_tree t)) | _ -> "BADARGS")
